@@ -13,26 +13,31 @@
 import BumpverVerif.Model.Diff
 import BumpverVerif.Props.C10
 import BumpverVerif.Proofs.RewriteLemmas
+import BumpverVerif.Proofs.DiffLemmas
 namespace BV
 
 /-- --dry is pure: no file is written, no hook runs, no mutating VCS command is issued
     (for every configuration, flag set and environment: C10's plan model) -/
 theorem C13_dry_pure (c : PlanCfg) (a : PlanCli) (e : PlanEnv) (hd : a.dry = true) :
     ∀ ev ∈ (plan c a e).1, ev ≠ .rewrite ∧ ev.mutating = false ∧ ev.isHook = false := by
-  sorry
+  intro ev hev
+  obtain ⟨h1, h2, h3⟩ := C10_dry c a e hd ev hev
+  exact ⟨h3, h1, h2⟩
 
 /-- the diff path and the write path compute the SAME new lines for a file -/
 theorem C13_same_new_lines (fs : FS) (old new : VInfo) (path : Str) (pats : List CPat)
     (ol nl : List Str) (h : diffFile fs old new path pats = .ok (ol, nl)) :
     ∃ content, lookup path fs = some content ∧ ol = splitOn (detectLineSep content) content ∧
       rewriteContent pats new content = .ok (join (detectLineSep content) nl) := by
-  sorry
+  exact diffFile_rewriteContent h
 
 /-- a dry run that reports no error ⇒ the real run's rewrite phase succeeds too -/
 theorem C13_dry_ok_real_ok (fs : FS) (old new : VInfo) (fps : List (Str × List CPat))
     (rs : List (Str × List Str × List Str)) (h : diffFiles fs old new fps = .ok rs) :
     (rewriteFiles fs fps new).2 = .ok () := by
-  sorry
+  obtain ⟨ws, hws, -⟩ := planWrites_of_diffFiles fs old new fps rs h
+  unfold rewriteFiles
+  simp only [hws]
 
 /-- … and the real run writes, for every configured file, exactly the new lines the dry run diffed -/
 theorem C13_dry_shows_real (fs : FS) (old new : VInfo) (fps : List (Str × List CPat))
@@ -40,7 +45,14 @@ theorem C13_dry_shows_real (fs : FS) (old new : VInfo) (fps : List (Str × List 
     (rs : List (Str × List Str × List Str)) (h : diffFiles fs old new fps = .ok rs) :
     ∀ r ∈ rs, ∃ content, lookup r.1 fs = some content ∧
       lookup r.1 (rewriteFiles fs fps new).1 = some (join (detectLineSep content) r.2.2) := by
-  sorry
+  obtain ⟨ws, hws, hall⟩ := planWrites_of_diffFiles fs old new fps rs h
+  have hp := planWrites_paths fs new fps ws hws
+  intro r hr
+  obtain ⟨content, hc, hm⟩ := hall r hr
+  refine ⟨content, hc, ?_⟩
+  unfold rewriteFiles
+  simp only [hws]
+  exact lookup_foldl_write_mem ws fs _ _ (hp ▸ hnd) hm
 
 /-- what it means for a hunk list to describe the change from `old` to `new`, starting after
     `pos` consumed old lines: each hunk's old side sits verbatim at its stated position and is
@@ -58,13 +70,29 @@ def Describes : List Hunk → Nat → List Str → List Str → Prop
     every context and deletion line was found verbatim at the exact position -/
 theorem C13_apply_sound (hs : List Hunk) (pos : Nat) (old new : List Str)
     (h : applyHunks hs pos old = some new) : Describes hs pos old new := by
-  sorry
+  induction hs generalizing pos old new with
+  | nil =>
+    simp only [applyHunks, Option.some.injEq] at h
+    exact h.symm
+  | cons hk hs ih =>
+    obtain ⟨h1, h2, h3, -, h5, h6, rest, hr, hn⟩ := (applyHunks_cons_some hk hs pos old new).1 h
+    refine ⟨h1, h2, h3, old.drop ((hk.oldPos - pos) + hk.oldLen), rest, ?_, hn, ?_, ih _ _ _ hr⟩
+    · rw [← h6, List.append_assoc, ← List.drop_drop, List.take_append_drop, List.take_append_drop]
+    · rw [List.length_take]; omega
 
 /-- and it is complete for descriptions: a described change is reproduced -/
 theorem C13_apply_complete (hs : List Hunk) (pos : Nat) (old new : List Str)
     (hz : ∀ h ∈ hs, h.oldLen = 0 ∨ h.oldStart ≠ 0)
     (h : Describes hs pos old new) : applyHunks hs pos old = some new := by
-  sorry
+  induction hs generalizing pos old new with
+  | nil => exact congrArg some h.symm
+  | cons hk hs ih =>
+    obtain ⟨h1, h2, h3, rest, new', ho, hn, hl, hd⟩ := h
+    obtain ⟨f1, f2, f3, -⟩ := split_facts old _ _ rest _ _ ho hl h2
+    refine (applyHunks_cons_some hk hs pos old new).2
+      ⟨h1, h2, h3, hz hk List.mem_cons_self, f3, f1, new', ?_, hn⟩
+    rw [f2]
+    exact ih _ _ _ (fun x hx => hz x (List.mem_cons_of_mem _ hx)) hd
 
 /-- the hunk body reader consumes exactly the announced numbers of old-side and new-side lines -/
 theorem C13_hunk_counts (lines : List Str) (o n : Nat) (ls : List DLine) (rest : List Str)
@@ -72,7 +100,13 @@ theorem C13_hunk_counts (lines : List Str) (o n : Nat) (ls : List DLine) (rest :
     (ls.filter (fun l => match l with | .add _ => false | _ => true)).length = o ∧
     (ls.filter (fun l => match l with | .del _ => false | _ => true)).length = n ∧
     lines.length = ls.length + rest.length := by
-  sorry
+  obtain ⟨h1, h2, h3⟩ := readHunkBody_counts lines o n ls rest h
+  have e1 : (fun l : DLine => match l with | .add _ => false | _ => true) = DLine.isOld := by
+    funext l; cases l <;> rfl
+  have e2 : (fun l : DLine => match l with | .del _ => false | _ => true) = DLine.isNew := by
+    funext l; cases l <;> rfl
+  rw [e1, e2]
+  exact ⟨h1, h2, h3⟩
 
 /-! tests of the parser/applier on a concrete diff (labelled as tests) -/
 example : applyUnifiedText ["--- f".toList, "+++ f".toList, "@@ -1,3 +1,3 @@".toList, " a".toList, "-b".toList, "+B".toList, " c".toList]
